@@ -128,3 +128,85 @@ package gnet
 //@   ensures wbc0 <= 4611686018427387904 ==> capnorm(wbc0, cli.opts.WriteBufferCap)
 //@   ensures et0 > 0 && et0 <= 4611686018427387904 ==> cli.opts.EdgeTriggeredIO && ispow2(cli.opts.EdgeTriggeredIOChunk) && cli.opts.EdgeTriggeredIOChunk >= et0
 //@   ensures et0 <= 0 && etio0 ==> cli.opts.EdgeTriggeredIO && cli.opts.EdgeTriggeredIOChunk == 1048576
+
+// ---------------------------------------------------------------------------------------------
+// C01: inbound stream integrity — the reader side of a connection
+//
+// Ghost streams of the kernel (assumed contracts in contracts/trusted/unix.spec):
+//   kdata[fd][i]  the i-th byte the peer sent on descriptor fd; kpos[fd] how many of them read(2) has delivered
+// Ghost per connection: c.cons, the number of bytes the handler has consumed through the reader methods.
+//@ import elastic "github.com/panjf2000/gnet/v2/pkg/buffer/elastic"
+//@ import ring "github.com/panjf2000/gnet/v2/pkg/buffer/ring"
+//@ ghost var kdata map[int]map[int]int
+//@ ghost var kpos map[int]int
+//@ ghost field (c *conn) cons int
+//
+// Readable bytes of a connection: first what is left in the elastic ring, then the window c.buffer onto
+// the loop's read buffer (ring content is always older).
+//@ pure icnt(c *conn) := elastic.rcnt(c.inboundBuffer) + len(c.buffer)
+//@ pure iat(c *conn, i int) := i < elastic.rcnt(c.inboundBuffer) ? elastic.rat(c.inboundBuffer, i) : c.buffer[i - elastic.rcnt(c.inboundBuffer)]
+//@ pred iwf(c *conn) := c != nil && elastic.rwf(c.inboundBuffer) &&
+//@     (c.inboundBuffer.rb != nil ==> disjoint(c.buffer, c.inboundBuffer.rb.buf) && disjoint(c.cache, c.inboundBuffer.rb.buf))
+// SI: stream invariant — what is readable is exactly the delivered-but-unconsumed part of the peer's stream.
+//@ pred SI(c *conn) := iwf(c) && c.cons >= 0 && kpos[c.fd] - c.cons == icnt(c) &&
+//@     (forall i :: 0 <= i && i < icnt(c) ==> iat(c, i) == kdata[c.fd][c.cons + i])
+//
+//@ func (c *conn) InboundBuffered() int
+//@   requires SI(c)
+//@   arith unchecked buffered byte counts stay far below 2^63
+//@   ensures res == icnt(c) && res == kpos[c.fd] - c.cons
+//
+//@ func (c *conn) resetBuffer()
+//@   requires iwf(c)
+//@   modifies c.buffer, c.inboundBuffer.rb, c.inboundBuffer.rb.r if c.inboundBuffer.rb != nil, c.inboundBuffer.rb.w if c.inboundBuffer.rb != nil, c.inboundBuffer.rb.isEmpty if c.inboundBuffer.rb != nil
+//@   ensures iwf(c) && icnt(c) == 0 && c.inboundBuffer.rb == nil
+//
+// Read: the next min(len(p), readable) bytes of the stream, consumed.
+//@ func (c *conn) Read(p []byte) (n int, err error)
+//@   requires SI(c) && disjoint(p, c.buffer) && (c.inboundBuffer.rb == nil || disjoint(p, c.inboundBuffer.rb.buf))
+//@   arith unchecked buffered byte counts stay far below 2^63
+//@   modifies c.buffer, c.cons, mem(p), c.inboundBuffer.rb, c.inboundBuffer.rb.r if c.inboundBuffer.rb != nil, c.inboundBuffer.rb.w if c.inboundBuffer.rb != nil, c.inboundBuffer.rb.isEmpty if c.inboundBuffer.rb != nil
+//@   ghostdef c.cons := old(c.cons) + n
+//@   ensures SI(c) && n == min(len(p), old(icnt(c))) && c.cons == old(c.cons) + n
+//@   ensures forall i :: 0 <= i && i < n ==> p[i] == kdata[c.fd][old(c.cons) + i]
+//@   ensures n == 0 && len(p) > 0 ==> err == io.ErrShortBuffer
+//@   ensures n > 0 ==> err == nil
+//
+// Discard: skips min(n, readable) bytes (everything for n <= 0).
+//@ func (c *conn) Discard(n int) (discarded int, err error)
+//@   requires SI(c)
+//@   arith unchecked buffered byte counts stay far below 2^63
+//@   modifies c.buffer, c.cache, c.cons, c.inboundBuffer.rb, c.inboundBuffer.rb.r if c.inboundBuffer.rb != nil, c.inboundBuffer.rb.w if c.inboundBuffer.rb != nil, c.inboundBuffer.rb.isEmpty if c.inboundBuffer.rb != nil
+//@   ghostdef c.cons := old(c.cons) + discarded
+//@   ensures SI(c) && err == nil && discarded == ((n <= 0 || n >= old(icnt(c))) ? old(icnt(c)) : n) && c.cons == old(c.cons) + discarded
+//
+// Peek: the next n bytes without consuming them.
+//@ func (c *conn) Peek(n int) (buf []byte, err error)
+//@   requires SI(c)
+//@   arith unchecked buffered byte counts stay far below 2^63
+//@   modifies c.cache
+//@   ensures SI(c) && c.cons == old(c.cons)
+//@   ensures n > icnt(c) ==> err == io.ErrShortBuffer && len(buf) == 0
+//@   ensures n <= icnt(c) ==> err == nil && len(buf) == (n <= 0 ? icnt(c) : n)
+//@   ensures forall i :: 0 <= i && i < len(buf) ==> buf[i] == kdata[c.fd][c.cons + i]
+//
+// Next: the next n bytes, consumed.
+//@ func (c *conn) Next(n int) (buf []byte, err error)
+//@   requires SI(c)
+//@   arith unchecked buffered byte counts stay far below 2^63
+//@   modifies c.buffer, c.cons, c.inboundBuffer.rb, c.inboundBuffer.rb.r if c.inboundBuffer.rb != nil, c.inboundBuffer.rb.w if c.inboundBuffer.rb != nil, c.inboundBuffer.rb.isEmpty if c.inboundBuffer.rb != nil
+//@   ghostdef c.cons := old(c.cons) + len(buf)
+//@   ensures SI(c) && c.cons == old(c.cons) + len(buf)
+//@   ensures n > old(icnt(c)) ==> err == io.ErrShortBuffer && len(buf) == 0
+//@   ensures n <= old(icnt(c)) ==> err == nil && len(buf) == (n <= 0 ? old(icnt(c)) : n)
+//@   ensures forall i :: 0 <= i && i < len(buf) ==> buf[i] == kdata[c.fd][old(c.cons) + i]
+//
+// WriteTo: hands the readable bytes to w in stream order; exactly what w accepted is consumed.
+//@ func (c *conn) WriteTo(w io.Writer) (n int64, err error)
+//@   requires SI(c) && w != nil
+//@   arith unchecked buffered byte counts stay far below 2^63
+//@   modifies c.buffer, c.cons, c.inboundBuffer.rb, c.inboundBuffer.rb.r if c.inboundBuffer.rb != nil, c.inboundBuffer.rb.w if c.inboundBuffer.rb != nil, c.inboundBuffer.rb.isEmpty if c.inboundBuffer.rb != nil, wpos[ref(w)], wdata[ref(w)], wfail[ref(w)]
+//@   ghostdef c.cons := old(c.cons) + n
+//@   ensures SI(c) && n == wpos[ref(w)] - old(wpos[ref(w)]) && 0 <= n && n <= old(icnt(c)) && c.cons == old(c.cons) + n
+//@   ensures forall i :: 0 <= i && i < n ==> wdata[ref(w)][old(wpos[ref(w)]) + i] == kdata[c.fd][old(c.cons) + i]
+//@   ensures !wfail[ref(w)] ==> n == old(icnt(c))
